@@ -281,6 +281,7 @@ func (o *Omni) observe(p *Party, r *CallResult) {
 			return
 		}
 		s.Peer = refotr.NewPeer(v, dsaPriv(p), s.rd, p.Conv.GetOurInstanceTag())
+		s.Peer.ForgetFragmentsOnWholeMessage = true // the shadow follows otr3 where the specification is silent
 	}
 	sp := s.Peer
 	// 1. feed the shadow
